@@ -409,17 +409,21 @@ class Extractor:
             seq = self.ev(g.iter, env)
             env2 = {**env, g.target.id: ("var", "$elt")}
             return ("filtercomp", seq, self.ev(e.elt, env2), tuple(self.ev(c, env2) for c in g.ifs))
-        if isinstance(e, ast.ListComp) and len(e.generators) == 1 and not e.generators[0].ifs and isinstance(e.generators[0].target, ast.Name):
+        if isinstance(e, (ast.ListComp, ast.GeneratorExp)) and len(e.generators) == 1 and not e.generators[0].ifs and isinstance(e.generators[0].target, ast.Name):
             g = e.generators[0]
             seq = self.ev(g.iter, env)
-            if seq[0] == "tuple":
-                return ("tuple", tuple(self.ev(e.elt, {**env, g.target.id: x}) for x in seq[1]))
-            return ("mapcomp", seq, self.ev(e.elt, {**env, g.target.id: ("var", "$elt")}))
-        if isinstance(e, ast.GeneratorExp) and len(e.generators) == 1 and isinstance(e.generators[0].target, ast.Name):
-            g = e.generators[0]
-            seq = self.ev(g.iter, env)
-            if seq[0] == "tuple" and not g.ifs:
-                return ("tuple", tuple(self.ev(e.elt, {**env, g.target.id: x}) for x in seq[1]))
+
+            def over(sq):       # a sequence known element by element (also one of two such, chosen by a condition) is mapped element by element
+                if sq[0] == "tuple":
+                    return ("tuple", tuple(self.ev(e.elt, {**env, g.target.id: x}) for x in sq[1]))
+                if sq[0] == "ite":
+                    a, b = over(sq[2]), over(sq[3])
+                    if a is not None and b is not None:
+                        return ite(sq[1], a, b)
+                return None
+            known = over(seq)
+            if known is not None:
+                return known
             return ("mapcomp", seq, self.ev(e.elt, {**env, g.target.id: ("var", "$elt")}))
         raise Unsupported(f"expression {type(e).__name__}")
 
